@@ -613,4 +613,57 @@ example : ∃ s, Reachable {} 1 s ∧ Quiescent {} s ∧ (s.prod 1).done = true 
         subst this
         simp [Crash.stopped, h7]
 
+/-! ### whose name the buffer messages carry -/
+
+/-- **Buffer messages carry the thread's own tid.**  Whatever a thread does to its identity - vfork (with the child
+    leaving by _exit or exec, from any call depth, any number of times), fork, exec, or simply returning from library
+    calls while OTHER threads vfork - in any order: every message it sends afterwards names its own kernel tid
+    (`msgTid`: REC_START / REC_END / TASK_START / LOST are built from mcount_gettid()), and the buffers it fills are the
+    ones it started under that name.  With `c03_no_cross_tid` (a file holds only what was announced under its tid):
+    `<tid>.dat` never contains another thread's records, and nothing a thread emits is announced under another name. -/
+theorem c03_messages_carry_own_tid (ops : List IdOp) (pid ktid : Nat) :
+    let s := idRun {} { pid := pid, ktid := ktid, bufs := ktid } ops
+    s.msgTid = s.ktid ∧ s.bufs = s.ktid ∧ s.own = true := by
+  have h0 : IdInv { pid := pid, ktid := ktid, bufs := ktid } := ⟨Or.inl rfl, rfl, by intro _ _ _ e; simp at e⟩
+  have := idInv_own (idRun_inv ops h0)
+  simp only [Ident.own, this.1, this.2, beq_self_eq_true, Bool.and_self, and_self]
+
+/-- the kernel tid itself only changes where the thread really becomes another task: in the child of a fork / vfork -/
+theorem c03_tid_stable_without_fork (ops : List IdOp) (s : Ident)
+    (h : ∀ o ∈ ops, (∀ c, o ≠ .vfork c) ∧ (∀ c, o ≠ .fork c) ∧ (∀ b, o ≠ .vforkDone b)) :
+    (idRun {} s ops).ktid = s.ktid := by
+  induction ops generalizing s with
+  | nil => rfl
+  | cons o os ih =>
+    have ho := h o (List.mem_cons_self ..)
+    have ih' := ih (idStep {} s o) (fun o' ho' => h o' (List.mem_cons_of_mem _ ho'))
+    simp only [idRun, ih']
+    cases o with
+    | gettid => rfl
+    | vfork c => exact absurd rfl (ho.1 c)
+    | vforkDone b => exact absurd rfl (ho.2.2 b)
+    | fork c => exact absurd rfl (ho.2.1 c)
+    | exec => rfl
+    | otherVfork a => simp [idStep]
+
+/-- non-vacuity / the schedule of the e2e programs: thread 101 of process 100 vforks twice from call depth 0 (the second
+    child pushes no frame), forks, returns from library calls while thread 102 vforks -/
+example : (idRun {} { pid := 100, ktid := 101, bufs := 101 }
+    [.gettid, .vfork 200, .gettid, .vforkDone false, .gettid, .vfork 201, .vforkDone true, .gettid, .otherVfork 102,
+     .gettid]).msgTid = 101 := by decide
+
+/-- the code before the repair F-C03-VFORK-AGAIN: after its second vfork from an uninstrumented caller the worker
+    thread 101 announces its buffers under the PROCESS id 100 - the main thread's name - and the buffers it was filling
+    are forgotten -/
+theorem c03_prefix_vfork_again_witness :
+    let s := idRun { again := false } { pid := 100, ktid := 101, bufs := 101 }
+      [.gettid, .vfork 200, .vforkDone false, .gettid, .vfork 201, .vforkDone true, .gettid]
+    s.ktid = 101 ∧ s.msgTid = 100 ∧ s.bufs = 100 ∧ s.own = false := by decide
+
+/-- the code before the repair F-C03-VFORK-MT: thread 102 returns from a library call while thread 101 is inside
+    vfork(): it goes on in thread 101's buffers -/
+theorem c03_prefix_vfork_mt_witness :
+    let s := idRun { mt := false } { pid := 100, ktid := 102, bufs := 102 } [.gettid, .otherVfork 101, .gettid]
+    s.ktid = 102 ∧ s.bufs = 101 ∧ s.own = false := by decide
+
 end Uft.C03
